@@ -87,7 +87,8 @@ let destructure_case (toks : string list) : string =
    produced them:  s:NAME symbol, l:NAME symbol with colonTail, d:NAME dot symbol, i f b q (int float bool
    string), c comma, m semicolon, k comment, o any other atom, p pair, B1 / B0 infix block (empty / not),
    H1 / H0 hash (empty / not), a[ ... ] array with nested tokens.  NAME: "\s" space, "\t", "\n", "\\".
-   model = ok:<number of statements> | err | crash:<site> | fuel   (Model/PrattShape.v expand_gen) *)
+   model = ok:<number of statements> | err | crash:<site> | fuel   (Model/PrattShape.v expand_auto: fuel 5 * weight + 1,
+   proved sufficient - pratt_returns - so fuel never appears) *)
 let ascii_of_char (c : char) : ascii =
   let n = Char.code c in
   let b k = (n lsr k) land 1 = 1 in
@@ -132,13 +133,38 @@ let rec pratt_items (ws : string list) : ptok list * string list =
 let pratt_site = function
   | SLedDispatch -> "led-dispatch" | SStackTop -> "cnodestack-top" | SStackPop -> "cnodestack-pop"
   | SHeaderIndex -> "range-header-index" | SHeaderSlice -> "range-header-slice" | STargets -> "range-targets"
+  | SArgsIndex -> "infix-args-index"
 
 let pratt_case (toks : string list) : string =
   let (ts, _) = pratt_items toks in
-  let n = int_of_nat (psize_list ts) in
-  match expand_gen (nat_of_int (3 * n + 10)) (nat_of_int (n + 2)) ts with
+  match expand_auto ts with
   | POk k -> "ok:" ^ string_of_int (int_of_nat k)
   | PErr -> "err" | PCrash s -> "crash:" ^ pratt_site s | PFuel -> "fuel"
+
+(* infix-form cases: "G <E|I> <arg> ..": the arguments of an (infix ...) / (infixExpand ...) form as
+   InfixArgsToArray sees them: AA a[ .. ] array, PS pair with sentinel tail, PA a[ .. ] pair whose tail's head
+   is an array, PO pair with another head in the tail, PD dotted pair, H hash, O anything else.
+   model = ok:<number of expressions> | err | crash:<site> | fuel   (Model/PrattShape.v infix_form_gen) *)
+let rec infix_form_args (ws : string list) : argk list =
+  match ws with
+  | [] -> []
+  | "AA" :: "a[" :: rest -> let (inner, rest') = pratt_items rest in AArray inner :: infix_form_args rest'
+  | "PA" :: "a[" :: rest -> let (inner, rest') = pratt_items rest in APairArray inner :: infix_form_args rest'
+  | "PS" :: rest -> APairNil :: infix_form_args rest
+  | "PO" :: rest -> APairOther :: infix_form_args rest
+  | "PD" :: rest -> APairDotted :: infix_form_args rest
+  | "H" :: rest -> AHashArg :: infix_form_args rest
+  | "O" :: rest -> AOtherArg :: infix_form_args rest
+  | w :: _ -> failwith ("bad infix-form argument " ^ w)
+
+let infix_form_case (toks : string list) : string =
+  match toks with
+  | mode :: rest ->
+    let args = infix_form_args rest in
+    (match infix_form_auto (mode = "E") args with
+     | POk k -> "ok:" ^ string_of_int (int_of_nat k)
+     | PErr -> "err" | PCrash s -> "crash:" ^ pratt_site s | PFuel -> "fuel")
+  | [] -> failwith "bad G case"
 
 let () =
   iter_lines (fun line ->
@@ -147,6 +173,8 @@ let () =
       let toks = Array.of_list (split_sp body) in
       if Array.length toks > 0 && toks.(0) = "F" then
         Printf.printf "%s\t%s\t-\n" id (call_case (List.tl (Array.to_list toks)))
+      else if Array.length toks > 0 && toks.(0) = "G" then
+        Printf.printf "%s\t%s\t-\n" id (infix_form_case (List.tl (Array.to_list toks)))
       else if Array.length toks > 0 && toks.(0) = "Q" then
         Printf.printf "%s\t%s\t-\n" id (pratt_case (List.tl (Array.to_list toks)))
       else if Array.length toks > 0 && toks.(0) = "D" then
